@@ -225,6 +225,11 @@ func c06prog(ps string, res *result) func() {
 					if p.transient {
 						r.tty.w--
 					}
+					// Init is not the way back from a Suspend: it is refused (it would replace
+					// the channels that pollers of this screen are waiting on)
+					if err := s.Init(); err == nil {
+						res.fail("Init() on a suspended screen returned nil")
+					}
 					afterResume(r, res, cyc)
 				}
 				if p.op == "suspend-fini" {
